@@ -77,16 +77,15 @@ Qed.
 (* ================================================================= the translated source (py2gal) *)
 Open Scope Z_scope.
 (* CaptureRegion.capture as translated from the source keeps len(data) <= length *)
+Ltac split_ifs := repeat match goal with |- context [if ?c then _ else _] => destruct c eqn:? end.
+
 Lemma gen_capture_len_le off len data chunk pos :
   0 <= len -> zlen data <= len ->
   let '((off', len', data'), _) := gen_capture off len data chunk pos in
   off' = off /\ len' = len /\ zlen data' <= len'.
 Proof.
-  intros Hl Hd. unfold gen_capture.
-  destruct ((pos - zlen chunk <=? off + zlen data) && (off + zlen data <=? pos)).
-  - split; [reflexivity|split; [reflexivity|]].
-    rewrite zslice_to by exact Hl. unfold zlen. rewrite blen_btake. lia.
-  - auto.
+  intros Hl Hd. unfold gen_capture. cbv zeta. split_ifs; (split; [reflexivity|split; [reflexivity|]]);
+    rewrite ?zslice_to by exact Hl; unfold zlen in *; rewrite ?blen_btake; lia.
 Qed.
 (* EndCaptureRegion.capture as translated from the source keeps len(data) <= length when length > 0 *)
 Lemma gen_end_capture_len_le off len data chunk pos :
@@ -94,11 +93,11 @@ Lemma gen_end_capture_len_le off len data chunk pos :
   let '((_, len', data'), _) := gen_end_capture off len data chunk pos in
   len' = len /\ zlen data' <= len'.
 Proof.
-  intros Hl. unfold gen_end_capture. split; [reflexivity|].
-  unfold zslice, norm_idx, zlen, bsub.
-  set (d := data ++ chunk). set (n := Z.of_N (blen d)).
-  replace (0 - len <? 0) with true by lia.
-  rewrite blen_btake, blen_bskip. lia.
+  intros Hl. unfold gen_end_capture. cbv zeta. split_ifs; (split; [reflexivity|]);
+  unfold zslice, norm_idx, zlen, bsub in *;
+  set (d := data ++ chunk) in *; set (n := Z.of_N (blen d)) in *;
+  replace (0 - len <? 0) with true in * by lia;
+  rewrite ?blen_btake, ?blen_bskip; lia.
 Qed.
 
 (* the hand model is the translated code (Z <-> N), for every region record and every call the engine makes
@@ -108,18 +107,20 @@ Lemma C05_cap_fixed_equiv r chunk pos :
   gen_capture (Z.of_N (r_off r)) (Z.of_N (r_len r)) (r_data r) chunk (Z.of_N pos)
   = ((Z.of_N (r_off (cap_fixed r chunk pos)), Z.of_N (r_len (cap_fixed r chunk pos)), r_data (cap_fixed r chunk pos)), tt).
 Proof.
-  intros Hp. unfold gen_capture, cap_fixed, zlen. rewrite !flen_blen in *.
+  intros Hp. unfold gen_capture, cap_fixed, zlen. cbv zeta. rewrite !flen_blen in *.
   replace ((Z.of_N pos - Z.of_N (blen chunk) <=? Z.of_N (r_off r) + Z.of_N (blen (r_data r)))
            && (Z.of_N (r_off r) + Z.of_N (blen (r_data r)) <=? Z.of_N pos))
     with (((pos - blen chunk <=? r_off r + blen (r_data r)) && (r_off r + blen (r_data r) <=? pos))%N) by lia.
   destruct ((pos - blen chunk <=? r_off r + blen (r_data r)) && (r_off r + blen (r_data r) <=? pos))%N eqn:E;
     [|reflexivity].
   cbn [set_data r_off r_len r_data].
-  rewrite zslice_from by lia. rewrite zslice_to by lia.
-  rewrite ntake_btake, nskip_bskip, N2Z.id.
+  rewrite zslice_from by lia.
   replace (Z.to_N (Z.of_N (r_off r) + Z.of_N (blen (r_data r)) - (Z.of_N pos - Z.of_N (blen chunk))))
     with (r_off r + blen (r_data r) - (pos - blen chunk))%N by lia.
-  reflexivity.
+  rewrite ntake_btake, nskip_bskip.
+  (* whatever guards the source puts around the truncation *)
+  split_ifs; rewrite ?zslice_to by lia; rewrite ?N2Z.id; try reflexivity;
+    (rewrite btake_all by lia; reflexivity).
 Qed.
 
 Lemma C05_cap_end_equiv r chunk pos :
